@@ -436,7 +436,21 @@ def instrument():
     mon.register_callback(TOOL, mon.events.INSTRUCTION, _on_instr)
     mon.register_callback(TOOL, mon.events.LINE, _on_line)
     mon.register_callback(TOOL, mon.events.PY_START, _on_start)
-    mon.set_events(TOOL, mon.events.PY_START)
+    # exception paths: raising, unwinding and handling are global events (PEP 669 has no local ones)
+    for ev in (mon.events.RAISE, mon.events.RERAISE, mon.events.PY_UNWIND, mon.events.EXCEPTION_HANDLED):
+        mon.register_callback(TOOL, ev, _on_exc)
+    mon.set_events(TOOL, mon.events.PY_START | mon.events.RAISE | mon.events.RERAISE | mon.events.PY_UNWIND
+                   | mon.events.EXCEPTION_HANDLED)
+
+
+def _on_exc(code, offset, exc):
+    # a simulated thread is raising, unwinding or entering a handler: its next pre-emption points
+    # are "inside an exception path" (clean-up code that runs rarely and late)
+    S = _S
+    if S is not None:
+        tid = getattr(_tl, "tid", None)
+        if tid is not None:
+            S.exc_window[tid] = 40
 
 
 def _on_start(code, offset):
@@ -529,6 +543,11 @@ class Sched:
         self._offset = -1
         self._held = {}                 # thread -> (file, global) it is parked in front of storing
         self._holds = [0] * n
+        self.exc_window = [0] * n       # pre-emption points left "inside an exception path", per thread
+        self.exc_q = policy.get("exc_q", 0.0) if explicit is None and policy["kind"] in ("random", "window", "shared") else 0.0
+        self.exc_release = policy.get("exc_release", 0.0)
+        self._parked_exc = []           # threads parked inside an exception path
+        self.exc_parks = 0
         self._held_keys = set()
         self._release_after = {}        # thread that just passed the check -> thread to wake next
         self.holds_fired = 0
@@ -686,6 +705,26 @@ class Sched:
                     return to
             return None
         kind = self.policy["kind"]
+        if self.exc_q:
+            # fault "thread stalls inside an exception path": at a pre-emption point shortly after it
+            # raised, unwound a frame or entered a handler, the thread is parked; it comes back at a
+            # random later point of the others' execution (or when nobody else can run)
+            if self._parked_exc and self.rng.random() < self.exc_release:
+                t = self._parked_exc.pop(self.rng.randrange(len(self._parked_exc)))
+                self._held.pop(t, None)
+                if t != tid and self.alive[t] and self.blocked[t] is None:
+                    return t
+            w = self.exc_window[tid]
+            if w:
+                self.exc_window[tid] = w - 1
+                if self.rng.random() < self.exc_q:
+                    cands = [c for c in self.runnable(exclude=tid) if c not in self._held]
+                    if cands:
+                        self.exc_window[tid] = 0
+                        self._held[tid] = ("exc",)
+                        self._parked_exc.append(tid)
+                        self.exc_parks += 1
+                        return self.rng.choice(cands)
         if kind == "stall":
             # "slow node" fault: the running thread is stalled (priority below everyone, PCT style)
             # at an event drawn with probability c / (events it has spent in this function so far),
@@ -727,7 +766,7 @@ class Sched:
         if kind == "window" and self.is_hot(code):
             p = min(0.5, p * 32)
         if self.rng.random() < p:
-            cands = self.runnable(exclude=tid)
+            cands = [c for c in self.runnable(exclude=tid) if c not in self._held] if self._held else self.runnable(exclude=tid)
             if cands:
                 return self.rng.choice(cands)
         return None
@@ -753,6 +792,8 @@ class Sched:
                 return self.rng.choice(free)
             for c in cands:
                 self._held.pop(c, None)       # nobody else can run: the parked threads go on
+                if c in self._parked_exc:
+                    self._parked_exc.remove(c)
         return self.rng.choice(cands)
 
     def thread_exit(self, tid):
@@ -885,7 +926,7 @@ def run(sf, spec):
         "steps": S.step, "tsteps": S.tsteps, "switches": S.switches, "exits": S.exits, "first": first,
         "lock_ops": S.lock_ops, "late": S.late, "window_switches": S.window_switches,
         "overlap": S.overlap, "sites": sorted(S.sites), "miss_calls": S.miss_calls,
-        "double_miss": S.double_miss, "double_aug": S.double_aug, "stalls_fired": S.stalls_fired, "shared_switches": S.shared_switches, "holds_fired": S.holds_fired,
+        "double_miss": S.double_miss, "double_aug": S.double_aug, "stalls_fired": S.stalls_fired, "shared_switches": S.shared_switches, "holds_fired": S.holds_fired, "exc_parks": S.exc_parks,
         "digest": h.hexdigest(), "state_diff": state_diff,
     }
 
